@@ -577,6 +577,8 @@ func init() {
 		a[0].(VPtr).C.Fields[0].V = a[1]
 		return nil
 	}
+	intrinsics["runtime.NumCPU"] = func(e *Exec, a []Value) Value { return VInt{mint(4)} }
+	intrinsics["runtime.GOMAXPROCS"] = func(e *Exec, a []Value) Value { return VInt{mint(4)} }
 	intrinsics["strings.Contains"] = func(e *Exec, a []Value) Value {
 		return VBool{BoolC(strings.Contains(strArg(a[0]), strArg(a[1])))}
 	}
